@@ -2,7 +2,7 @@
 rule (C01)."""
 import ast
 
-from ..core import own_nodes, attr_chain, short, names_in, Func, resolve_callee
+from ..core import own_nodes, attr_chain, short, names_in, Func, resolve_callee, AnalysisError
 from ..flow import walk_function, contexts_by_node, same, atomic_facts, refs
 from .callrules import sites_of, in_scope, dependency_closure, depends_on
 from .. import tables as T
@@ -321,6 +321,91 @@ def markov_helper(repo, rep):
 # ---------------------------------------------------------------------------
 FALSY_OK = {"rho", "initial_infecteds", "initial_recovereds", "Y0", "X0", "XY0", "XX0", "nodelist", "Ks", "phiS0", "phiR0",
             "Sk0", "IC", "transmissibility", "tmin", "tau", "gamma", "p", "R0"}
+
+
+def _shared_value_sites(tree, drawing=()):
+    """Calls that give every key / slot ONE object or ONE draw: dict.fromkeys(keys, v), [v] * n, with v a mutable display,
+    a container constructor, or an expression that draws a random number."""
+    def hazard(v):
+        for z in ast.walk(v):
+            if isinstance(z, (ast.List, ast.Dict, ast.Set, ast.ListComp, ast.DictComp, ast.SetComp)):
+                return "one mutable object `%s`" % short(z, 40)
+            if isinstance(z, ast.Call):
+                ch = attr_chain(z.func) or ""
+                if ch in ("list", "dict", "set", "defaultdict", "collections.defaultdict", "deque", "Counter", "np.zeros", "np.ones", "np.array"):
+                    return "one mutable object `%s`" % short(z, 40)
+                if ch.startswith(("random.", "np.random.", "numpy.random.")) or ch.split(".")[-1] in drawing:
+                    return "one random draw `%s`" % short(z, 40)
+        return None
+    out = []
+    for n in ast.walk(tree):
+        if isinstance(n, ast.Call) and isinstance(n.func, ast.Attribute) and n.func.attr == "fromkeys" and len(n.args) == 2:
+            h = hazard(n.args[1])
+            out.append((n, h))
+        elif isinstance(n, ast.BinOp) and isinstance(n.op, ast.Mult):
+            for side in (n.left, n.right):
+                if isinstance(side, ast.List) and len(side.elts) == 1:
+                    h = hazard(side.elts[0])
+                    out.append((n, h))
+    return out
+
+
+def reachable_functions(repo, entries):
+    """Short names of the package functions reachable from `entries` through any reference by name (calls, handlers
+    passed to the queue, user-rule adapters); a referenced class brings its methods."""
+    tops = {}
+    for (m, nm), f in repo.top.items():
+        tops.setdefault(nm, []).append(f)
+    classes = {}
+    for (m, nm), c in repo.classes.items():
+        classes.setdefault(nm, []).append((m, c))
+    seen, work, out = set(), list(entries), []
+    while work:
+        nm = work.pop()
+        if nm in seen:
+            continue
+        seen.add(nm)
+        nodes = [f.node for f in tops.get(nm, [])]
+        for m, c in classes.get(nm, []):
+            nodes += [b for b in c.body if isinstance(b, ast.FunctionDef)]
+        for node in nodes:
+            out.append(node)
+            for z in ast.walk(node):
+                ref = z.id if isinstance(z, ast.Name) else (z.attr if isinstance(z, ast.Attribute) and attr_chain(z) == "EoN.%s" % z.attr else None)
+                if ref and (ref in tops or ref in classes) and ref not in seen:
+                    work.append(ref)
+    return out
+
+
+def shared_value_rule(repo, rep, modules, entries=None):
+    rep.rule("SHARE", "per-key state is per key: no dict.fromkeys(keys, v) / [v] * n where v is a mutable object (every node would "
+                      "append to the same history list) or a random draw (every neighbour would get the same delay)")
+    # the detector is exercised on every run (the expected number of sites in the package is zero)
+    probe = ast.parse("def p(ks, t):\n    a = dict.fromkeys(ks, [t])\n    b = dict.fromkeys(ks, ([t], ['I']))\n"
+                      "    c = [[]] * 3\n    d = dict.fromkeys(ks, random.expovariate(1))\n    e = dict.fromkeys(ks, 'I')\n    f = [0] * 3\n")
+    got = [h is not None for _, h in _shared_value_sites(probe)]
+    if sorted(got) != [False, False, True, True, True, True]:
+        raise AnalysisError("SHARE: the detector no longer recognises its own probe (%s)" % got)
+    drawing = set()
+    for f in repo.all_funcs():
+        if f.parent is None and any(isinstance(c, ast.Call) and (attr_chain(c.func) or "").startswith(("random.", "np.random."))
+                                    for c in own_nodes(f.node)):
+            drawing.add(f.name)
+    n = 0
+    scope = None if entries is None else {id(x) for x in reachable_functions(repo, entries)}
+    for f in repo.all_funcs():
+        if f.module not in modules or f.parent is not None:
+            continue
+        if scope is not None and id(f.node) not in scope:
+            continue
+        n += 1
+        for call, h in _shared_value_sites(f.node, drawing):
+            rep.analysed(f)
+            rep.ob("SHARE", h is None, "%s: %s gives every key its own value" % (f.name, short(call, 60)), func=f, node=call,
+                   construct="%s: %s" % (f.name, short(call, 80)),
+                   detail="" if h is None else "every key receives %s: what is recorded for (or drawn for) one node shows up for all of them" % h)
+    rep.count("SHARE:functions scanned", n)
+    rep.floor("SHARE", "functions in scope", n, 1 if entries is None else len(set(entries)))
 
 
 def truthy_rule(repo, rep, modules):
